@@ -189,7 +189,7 @@ Definition run_C19 (v : val) : val :=
   let k := num_merges v in
   let es := map merge (train k c) in
   L [ table_v es;
-      list_v (fun s => let t := strip_trailing_ws s in L [list_v n_v (utf8s t); list_v n_v t]) (in_tests v);
+      list_v (fun s => L [list_v n_v (utf8s (strip_trailing_ws s)); list_v n_v (strip_trailing_ws s)]) (in_tests v);
       n_v (256 + N.of_nat (length es) + in_ntok v);
       list_v (list_v n_v) (bytes256 ++ es ++ repeat [] (N.to_nat (in_ntok v)));
       L (map (fun i => L [n_v (256 + N.of_nat i)]) (seq 0 (length es)));
@@ -266,3 +266,67 @@ Definition agree_C19 (v m i : val) : bool :=
   && val_eqb (L (map (v_nth 1) (match v_nth 1 m with L l => l | _ => [] end)))
              (L (map (v_nth 1) (match v_nth 1 i with L l => l | _ => [] end)))
   && (if v_bool (v_nth 5 m) then true else val_eqb (v_nth 0 m) (v_nth 0 i)).
+
+(** ** Prop-level statement of the property (about the model; proofs in C19_Proofs.v) *)
+
+(** [p] may be merged in state [c]: it occurs, its frequency is positive and no
+    pair whatsoever is more frequent *)
+Definition StepOK (c : corpus) (p : pair) : Prop :=
+  In p (all_pairs c) /\ 0 < pair_freq c p /\ forall q, pair_freq c q <= pair_freq c p.
+Definition Exhausted (c : corpus) : Prop := forall q, pair_freq c q = 0.
+
+(** accepted runs with merge budget [k]: each pair is accepted in the state
+    reached by its predecessors; a run stops when the budget is used up or the
+    corpus is exhausted (D8 repaired), never earlier *)
+Inductive Run : corpus -> nat -> list pair -> Prop :=
+| Run_budget : forall c, Run c 0 []
+| Run_exhausted : forall c k, Exhausted c -> Run c k []
+| Run_step : forall c k p ps, StepOK c p -> Run (apply_pair c p) k ps -> Run c (S k) (p :: ps).
+
+(** corpus state after merging the pairs [ps] in turn *)
+Definition state_after (c : corpus) (ps : list pair) : corpus := fold_left apply_pair ps c.
+
+(** a token is a single byte or one of the listed entries *)
+Definition TokOK (tbl : list token) (t : token) : Prop := (exists b, t = [b]) \/ In t tbl.
+(** all tokens of the corpus are non-empty and single bytes or entries of [tbl] *)
+Definition CorpusOK (tbl : list token) (c : corpus) : Prop :=
+  forall w k, In (w, k) c -> Forall (fun t => t <> [] /\ TokOK tbl t) w.
+
+(** number of occurrences of a word in a list of words *)
+Fixpoint occ (w : str) (ws : list str) : N :=
+  match ws with [] => 0 | x :: r => (if nlist_eqb x w then 1 else 0) + occ w r end.
+
+(** ** The counting threads as a transition system.  [queue]: lines not yet
+    pulled from the shared iterator; [held]: per worker the line it is working on;
+    [chan]: bounded channel of per-line maps (represented by their lines);
+    [recv]: lines whose maps the main thread has folded, in arrival order. *)
+Record pool := { queue : list (list str); held : list (option (list str));
+                 chan : list (list str); recv : list (list str) }.
+Definition held_lines (h : list (option (list str))) : list (list str) :=
+  flat_map (fun o => match o with Some l => [l] | None => [] end) h.
+Fixpoint set_nth {A} (l : list A) (i : nat) (x : A) : list A :=
+  match l, i with
+  | [], _ => []
+  | _ :: r, O => x :: r
+  | y :: r, S i' => y :: set_nth r i' x
+  end.
+Inductive pool_step (cap : nat) : pool -> pool -> Prop :=
+| Pull : forall i l q h ch rc, nth_error h i = Some None ->
+    pool_step cap {| queue := l :: q; held := h; chan := ch; recv := rc |}
+                  {| queue := q; held := set_nth h i (Some l); chan := ch; recv := rc |}
+| Send : forall i l q h ch rc, nth_error h i = Some (Some l) -> (length ch < cap)%nat ->
+    pool_step cap {| queue := q; held := h; chan := ch; recv := rc |}
+                  {| queue := q; held := set_nth h i None; chan := ch ++ [l]; recv := rc |}
+| Recv : forall l q h ch rc,
+    pool_step cap {| queue := q; held := h; chan := l :: ch; recv := rc |}
+                  {| queue := q; held := h; chan := ch; recv := rc ++ [l] |}.
+Inductive pool_reach (cap : nat) : pool -> pool -> Prop :=
+| reach_refl : forall s, pool_reach cap s s
+| reach_step : forall s t u, pool_reach cap s t -> pool_step cap t u -> pool_reach cap s u.
+Definition pool_init (lines : list (list str)) (threads : nat) : pool :=
+  {| queue := lines; held := repeat None threads; chan := []; recv := [] |}.
+(** the fold over the channel has ended: nothing queued, held or in flight *)
+Definition pool_done (s : pool) : Prop := queue s = [] /\ held_lines (held s) = [] /\ chan s = [].
+
+(** well-formed test strings: Unicode scalar range *)
+Definition wf_input (v : val) : Prop := Forall (Forall (fun c => c < 1114112)) (in_tests v).
